@@ -132,6 +132,25 @@ func drawLists(ch *core.Chooser, hosts []string, kinds []int, maxLists, minLines
 		plans = append(plans, p)
 		ch.End()
 	}
+	// now and then the first list is on disk twice under two ids: two
+	// FileRuleLists opened on ONE path (whatever is shared per path -
+	// descriptors, offsets, registries - is shared between them)
+	if fileMode != 2 && ch.Intn("list.twin", 8) == 7 {
+		plans[0].File = true
+		tw := plans[0]
+		tw.ID = listIDPool[(indexOfInt(listIDPool, plans[0].ID)+5)%len(listIDPool)]
+		for dup := true; dup; {
+			dup = false
+			for _, l := range plans {
+				if l.ID == tw.ID {
+					dup = true
+					tw.ID = listIDPool[(indexOfInt(listIDPool, tw.ID)+1)%len(listIDPool)]
+				}
+			}
+		}
+		plans[0].ShareKey, tw.ShareKey = "twin", "twin"
+		plans = append(plans, tw)
+	}
 	return plans
 }
 
